@@ -5,9 +5,10 @@
 # Prints for each check: DETECTED (exit 1 + VIOLATION), MISSED (exit 0) or INCONCLUSIVE.
 set -u
 what="$1"; shift
-# every scratch copy fills the shared Go build cache with objects that are never used again
+# every scratch copy fills the shared Go build cache with objects that are never used again (92 GB after four
+# rounds of seeded changes - too big for the sandbox to be copied by `vp check`): keep at least 100 GB free
 avail=$(df --output=avail -k / | tail -1)
-if [[ "$avail" -lt 30000000 ]]; then go clean -cache >/dev/null 2>&1; fi
+if [[ "$avail" -lt 100000000 ]]; then go clean -cache >/dev/null 2>&1; fi
 tag=$(echo "$what" | tr -c 'A-Za-z0-9' '_' | tail -c 40)
 wt=/tmp/mutwt_$tag
 vf=/tmp/mutverif_$tag
